@@ -94,6 +94,25 @@ Proof.
 Qed.
 Print Assumptions C03_image_refuted_rejected_modification.
 
+(* F12, parse-phase variant (same defect: a rejection after an in-place mutation of the aliased store): {Update FAR 2
+   (new tunnel), unreadable Update FAR} is REJECTED and writes nothing, yet the stored FAR 2 carries the new tunnel
+   (9, TEID 7) while farLookup still holds the old one (8, TEID 6).  This is why the guard of the history theorem below
+   admits a parse-phase rejection only when no Update had taken effect before the failing IE *)
+Theorem C03_image_refuted_rejected_update :
+  exists a c m a' c' o,
+    handle (fun _ _ _ => 0) a c true m [] = Done (a', c', o) /\ o_reply o = Some (RMod 77 CAUSE_REJ) /\ o_cmds o = [] /\
+    map (fun s => map (fun f => (a_id f, a_tdst f, a_teid f)) (view (s_fars s))) (c_sessions c) = [[(2, 8, 6)]] /\
+    map (fun s => map (fun f => (a_id f, a_tdst f, a_teid f)) (view (s_fars s))) (c_sessions c') = [[(2, 9, 7)]] /\
+    a_tables a' = a_tables a /\ t_far (a_tables a) = [([2; 5], [1; 0; 1; 100; 8; 6; 2152])].
+Proof.
+  set (f2 := Far 2 5 0 false 2 1 100 8 6 2152).
+  exists (Agent (Cfg 100 200 true) None (Gen 0 []) 1 (apply_cmds (far_add f2) no_tables)).
+  exists (Conn 7 [] [Sess 5 77 (s_of []) (s_of [f2]) (s_of [])] 0).
+  exists (MMod 5 None [] [] [] [] [FarIE (IOk 2) (IOk 2) IErr (IOk [FDst (IOk 0); FOhc (IOk (7, Some 9))]); FarIE IErr IErr IErr IErr] [] [] [] []).
+  do 3 eexists. repeat split; vm_compute; reflexivity.
+Qed.
+Print Assumptions C03_image_refuted_rejected_update.
+
 (* F13: an Update PDR that changes the match key (new UE address) is accepted; the entry under the old key stays *)
 Theorem C03_image_refuted_key_changing_update :
   exists a c m a' c' o old_key,
